@@ -4,11 +4,11 @@
 // relating the real methods to those views are ASSUMED here (those within reach are proved in units
 // `deposits`, `min_ada`, `fees` with the same contract text).
 // ---------------------------------------------------------------------------------------------------------
-opaque_types!(Address, DataOption, ScriptRef, CborContainerType, TransactionInput, TransactionInputs, Certificates, Withdrawals, Update,
+opaque_types!(Address, DataHash, PlutusData, ScriptRef, CborContainerType, TransactionInput, TransactionInputs, Certificates, Withdrawals, Update,
     AuxiliaryDataHash, AuxiliaryData, Mint, ScriptDataHash, Ed25519KeyHashes, NetworkId, VotingProcedures, VotingProposals,
     TxInputsBuilder, CertificatesBuilder, WithdrawalsBuilder, MintBuilder, VotingBuilder, VotingProposalBuilder,
     ExUnitPrices, UnitInterval, LinearFee, ReferenceInputsMap, TransactionUnspentOutputs, ChangeConfigRest);
 pub type SlotBigNum = BigNum;
 
-clone_eq!(Address, TransactionInput, TransactionInputs, AuxiliaryData, ScriptDataHash, Ed25519KeyHashes, TxInputsBuilder,
+clone_eq!(DataHash, PlutusData, ScriptRef, Address, TransactionInput, TransactionInputs, AuxiliaryData, ScriptDataHash, Ed25519KeyHashes, TxInputsBuilder,
     CertificatesBuilder, WithdrawalsBuilder, MintBuilder, VotingBuilder, VotingProposalBuilder, ExUnitPrices, UnitInterval, LinearFee, ReferenceInputsMap);
